@@ -207,4 +207,30 @@ CHECKS = {
         "level_note": "Signature verification (a user cannot sign for the governance address) is x/auth's ante handler and is exercised in ABCI mode by C11/C12, not here.",
         "design_ref": "DESIGN.md §5 C13",
     },
+    "C11": {
+        "title": "Replicas computing the same blocks reach the same state hash",
+        "level": "exploration",
+        "technique": "property-based differential testing (rapid): generated ABCI histories executed on two independently constructed applications (thorough: plus a replica in a second OS process), comparing app hashes, transaction results and events at every height",
+        "tests": [T("TestC11", 25, 120, qshards=4, timeout=1500)],
+        "rule": "cases = generated genesis (minter configuration, sub-distributor configuration, 1-4 vesting types, 0-3 genesis pools) + 5-25 blocks with dt in {1s,5s,11s,1min,1d,30d}, each carrying 0-4 signed SIGN_MODE_DIRECT transactions built against the live state: create pool, pool send, withdraw, direct vesting-account creation, split / move / move-by-denoms signed by previously created vesting accounts, MsgDelegate from vesting accounts, bank sends into distributor sources, cfesignature messages (unroutable on this tree), governance proposals carrying minter / distributor / vesting parameter updates followed by a validator-delegator yes vote and execution after the 10 s voting period, user-signed parameter updates, garbage bytes and wrong-sequence transactions. "
+                "Replica B is a separately constructed app fed the identical genesis bytes and transaction bytes. Compared per height: Commit app hash, every ResponseDeliverTx {code, codespace, data, gas used/wanted, events}, BeginBlock and EndBlock events, validator updates. Log strings are not compared (ABCI declares them non-deterministic), differences are counted. Non-trivial = at least one accepted vesting transaction and one rejected transaction. Distinct = SHA-256 of (genesis, history).",
+        "min_nontrivial_fraction": 0.5,
+        "min_class_fraction": {"gov_proposal_executed": 0.2, "vesting_tx_accepted": 0.5, "tx_rejected": 0.5},
+        "level_text": "Two replicas in one process detect nondeterminism that depends on Go map iteration order, pointer values or wall-clock reads in state-changing code; the thorough tier adds a replica in a second OS process (fresh hash seeds, ASLR). It cannot detect divergence that needs another architecture or Go release.",
+        "level_note": "Block gas limit is unlimited in the harness consensus parameters (see abciConsensusParams).",
+        "design_ref": "DESIGN.md §5 C11",
+    },
+    "C12": {
+        "title": "Genesis export/import preserves state and subsequent behaviour",
+        "level": "exploration",
+        "technique": "property-based round-trip and differential testing (rapid): export -> validate -> import into a fresh application -> re-export, then the same generated suffix on original and restored chain; plus a high-volume module-level fork variant",
+        "tests": [T("TestC12", 20, 100, qshards=4, timeout=1500), T("TestC12Modules", 500, 3000, qshards=2)],
+        "rule": "(a) ABCI level: generated genesis and history prefix of 1-15 blocks as C11, export at that height, application genesis validation, InitChain of a fresh app at the exported height, re-export must be identical (canonical JSON) in cfevesting, cfeminter, cfedistributor, cfesignature, auth and bank, then 3-10 further generated blocks delivered with identical transaction bytes to both chains: BeginBlock events (mints, distributions, rewards), EndBlock events, transaction results (code, codespace, data, events) and 12 query answers per block must be equal, and the final exports equal. "
+                "(b) module level (fast): minter + distributor + vesting history of 1-25 steps (blocks, inflows, governance updates, pool creation and sends), export of the three stateful custom modules must validate, import into a fork, re-export identically, then 2-12 identical further steps on original and fork must leave identical module state, balances and supply. Non-trivial = the prefix minted and (a) had an accepted vesting transaction / (b) an accepted parameter update. Distinct = SHA-256 of the case.",
+        "min_nontrivial_fraction": 0.2,
+        "min_class_fraction": {"prefix_with_burn": 0.05, "prefix_with_mint": 0.3},
+        "level_text": "Every explored height is a point at which an operator might export and restart; the restored chain must be observationally equivalent. Gas figures are not compared across a restart (IAVL and cache state legitimately differ). Distributor destinations exclude other modules' escrow accounts, whose own genesis import checks balances.",
+        "level_note": "Open known findings: F-CVAVALIDATE (accounts with start_time >= end_time fail x/auth genesis validation; such accounts are skipped in validation and counted, all other validation still runs) and F-SIGEXPORT (signature data not exported; no signature data is placed while it is open).",
+        "design_ref": "DESIGN.md §5 C12",
+    },
 }
